@@ -530,7 +530,11 @@ pub fn oracle_c09(cfg: &EwCfg, tr: &EwTrace) -> Vec<Violation> {
             let reconnects = tr.calls.iter().filter(|c| matches!(c.act, Act::Connect(k) if k == i)).count() > 1;
             if tr.blackout.is_none() && !s_dropped && !c_forgot && !reconnects && bad <= 3 && gap_all <= 2000 && cfg.clients[i].active_timeout_ms >= 20_000 && cfg.server.active_timeout_ms >= 20_000 && cfg.clients[i].keepalive_interval_ms <= 5000 && cfg.server.keepalive_interval_ms <= 5000 {
                 for (who, evs) in [("client", &tr.cev[i]), ("server", &tr.sev[i])] {
-                    if let Some(e) = evs.iter().find(|e| e.ev == Ev::Error(0) && e.round >= r0) {
+                    // the connection's own terminal event: the first Disconnect / Error after its Connect (later events belong to
+                    // later handshake attempts from the same address, e.g. a stale SYN arriving after the connection has ended)
+                    let conn = evs.iter().position(|e| e.ev == Ev::Connect);
+                    let term = conn.and_then(|c| evs[c..].iter().find(|e| matches!(e.ev, Ev::Disconnect | Ev::Error(_))));
+                    if let Some(e) = term.filter(|e| e.ev == Ev::Error(0) && e.round >= r0) {
                         out.push(viol("C09.budget", format!("C09.spurious-timeout:{}", who), format!("{} {}: a disconnect request was first transmitted in round {}; only {} datagrams were lost or held long, steps were at most {} ms apart and both endpoints stayed alive, yet the {} ended with Error(Timeout) in round {} (t={} ms) instead of Disconnect", who, i, r0, bad, gap_all, who, e.round, e.t_ms)));
                     }
                 }
